@@ -61,6 +61,20 @@ def _regex_charset(pattern):
     return items(tree)
 
 
+def _compiled_pattern(prog, f, expr):
+    """Pattern text when `expr` names a module- or class-level `re.compile(<constant>)`; None otherwise."""
+    node = None
+    if isinstance(expr, ast.Name):
+        node = f.module.assigns.get(expr.id)
+    elif isinstance(expr, ast.Attribute) and isinstance(expr.value, ast.Name) and expr.value.id in ("self", "cls") and f.cls is not None:
+        a = prog.lookup_attr(f.cls, expr.attr)
+        node = a[1] if a else None
+    if isinstance(node, ast.Call) and dotted(node.func) == "re.compile" and node.args:
+        v = prog.const(node.args[0], f.module)
+        return v if isinstance(v, str) else None
+    return None
+
+
 def run(ctx):
     from checks.c10 import load
 
@@ -91,7 +105,15 @@ def run(ctx):
     esc = run_c.methods.get("_escape_ctrl_chars")
     if esc is None:
         raise AnalysisError("anchor vanished: _escape_ctrl_chars")
-    sub = [n for n in ast.walk(esc.node) if isinstance(n, ast.Call) and dotted(n.func) == "re.sub"]
+    # re.sub(P, repl, s)  or  <compiled pattern>.sub(repl, s): normalised to (pattern text, replacement, subject)
+    sub = []
+    for n in ast.walk(esc.node):
+        if isinstance(n, ast.Call) and dotted(n.func) == "re.sub" and len(n.args) >= 3:
+            sub.append((prog.const(n.args[0], esc.module), n.args[1], n.args[2], n))
+        elif isinstance(n, ast.Call) and isinstance(n.func, ast.Attribute) and n.func.attr == "sub" and len(n.args) >= 2:
+            pt = _compiled_pattern(prog, esc, n.func.value)
+            if pt is not None:
+                sub.append((pt, n.args[0], n.args[1], n))
     tr = [n for n in ast.walk(esc.node) if isinstance(n, ast.Call) and isinstance(n.func, ast.Attribute) and n.func.attr == "translate"
           and dotted(n.func.value) == esc.node.args.args[-1].arg and len(n.args) == 1]
     if not sub and tr:
@@ -140,8 +162,7 @@ def run(ctx):
     elif not sub:
         ctx.error("CT_RegularTextRun._escape_ctrl_chars", "neither re.sub nor str.translate found")
     else:
-        c = sub[0]
-        pat = prog.const(c.args[0], esc.module)
+        pat, rep, subj, c = sub[0]
         want = set(range(0x00, 0x20)) - {TAB, LF}
         try:
             got = _regex_charset(pat) if isinstance(pat, str) else None
@@ -156,18 +177,33 @@ def run(ctx):
                 ctx.violation("R4.1", "escape-class", "escape class differs from C0 minus {TAB, LF}: escapes %s that must stay, leaves %s "
                               "unescaped (they are not representable in XML or are silently normalised)" % (
                                   ["U+%04X" % x for x in extra], ["U+%04X" % x for x in missing]), file=esc.file, line=esc.line)
-        # replacement: lambda m: "_x%04X_" % ord(m.group(1))
-        rep = c.args[1] if len(c.args) > 1 else None
+        # replacement: a lambda or a named function of the match returning "_x%04X_" % ord(m.group(k)), k the whole match
+        body = None
+        if isinstance(rep, ast.Lambda):
+            body = rep.body
+        elif isinstance(rep, (ast.Name, ast.Attribute)):
+            g = prog.resolve(esc.module, rep.id) if isinstance(rep, ast.Name) else (prog.lookup(esc.cls, rep.attr) if esc.cls else None)
+            gn = getattr(g, "node", None)
+            if gn is not None:
+                rets_ = [x.value for x in ast.walk(gn) if isinstance(x, ast.Return)]
+                body = rets_[0] if len(rets_) == 1 else None
         good = False
-        if isinstance(rep, ast.Lambda) and isinstance(rep.body, ast.BinOp) and isinstance(rep.body.op, ast.Mod):
-            fmt = prog.const(rep.body.left, esc.module)
-            arg = rep.body.right
-            good = fmt == "_x%04X_" and isinstance(arg, ast.Call) and dotted(arg.func) == "ord"
-        if good:
+        if isinstance(body, ast.BinOp) and isinstance(body.op, ast.Mod):
+            fmt = prog.const(body.left, esc.module)
+            arg = body.right
+            whole = False
+            if isinstance(arg, ast.Call) and dotted(arg.func) == "ord" and arg.args and isinstance(arg.args[0], ast.Call) \
+                    and isinstance(arg.args[0].func, ast.Attribute) and arg.args[0].func.attr == "group":
+                k = prog.const(arg.args[0].args[0], esc.module) if arg.args[0].args else 0
+                one_group = isinstance(pat, str) and pat.startswith("(") and pat.endswith(")")
+                whole = k == 0 or (k == 1 and one_group)
+            good = fmt == "_x%04X_" and whole
+        if body is None:
+            ctx.error("CT_RegularTextRun._escape_ctrl_chars", "replacement function not recognised")
+        elif good:
             ctx.ok("R4.1", "escape-format", sample={"replacement": "_x%04X_ % ord(ch)"})
         else:
             ctx.violation("R4.1", "escape-format", "control characters are not replaced by `_x%04X_` of their code point", file=esc.file, line=esc.line)
-        subj = c.args[2] if len(c.args) > 2 else None
         if not (isinstance(subj, ast.Name) and subj.id == esc.node.args.args[-1].arg):
             ctx.violation("R4.1", "escape-subject", "the escape is not applied to the whole argument", file=esc.file, line=esc.line)
         else:
@@ -208,16 +244,42 @@ def run(ctx):
         raise AnalysisError("anchor vanished: CT_TextParagraph.append_text")
     loops = [n for n in walk_own(at.node) if isinstance(n, ast.For)]
     spl = None
+    first_form = None  # (first-item variable, statements handling it) for the `first, *rest = split` form
+
+    def is_split(c):
+        return isinstance(c, ast.Call) and (dotted(c.func) == "re.split" or (isinstance(c.func, ast.Attribute) and c.func.attr == "split"
+                                                                             and _compiled_pattern(prog, at, c.func.value) is not None))
+
     for lp in loops:
         it = lp.iter
-        if isinstance(it, ast.Call) and dotted(it.func) == "enumerate" and it.args and isinstance(it.args[0], ast.Call) \
-                and dotted(it.args[0].func) == "re.split":
+        if isinstance(it, ast.Call) and dotted(it.func) == "enumerate" and it.args and is_split(it.args[0]):
             spl = (lp, it.args[0])
     if spl is None:
-        ctx.error("CT_TextParagraph.append_text", "for idx, item in enumerate(re.split(...)) not recognised")
+        # first, *rest = re.split(...);  <statements on first>;  for item in rest: ...
+        for st_ in at.node.body:
+            if isinstance(st_, ast.Assign) and isinstance(st_.targets[0], ast.Tuple) and len(st_.targets[0].elts) == 2 \
+                    and isinstance(st_.targets[0].elts[1], ast.Starred) and is_split(st_.value):
+                fv = st_.targets[0].elts[0].id
+                rv = st_.targets[0].elts[1].value.id
+                for lp in loops:
+                    if dotted(lp.iter) == rv and isinstance(lp.target, ast.Name):
+                        others = [x for x in at.node.body if x is not st_ and x is not lp
+                                  and not (isinstance(x, ast.Expr) and isinstance(x.value, ast.Constant))]
+                        before = [x for x in others if x.lineno < lp.lineno]
+                        after = [x for x in others if x.lineno > lp.lineno]
+                        if not after:
+                            spl = (lp, st_.value)
+                            first_form = (fv, before)
+    if spl is None:
+        ctx.error("CT_TextParagraph.append_text", "consumption of re.split(...) not recognised (enumerate loop, or first/*rest unpacking followed by a loop)")
     else:
         lp, call = spl
-        pat = prog.const(call.args[0], at.module)
+        if dotted(call.func) == "re.split":
+            pat = prog.const(call.args[0], at.module)
+            subj = call.args[1] if len(call.args) > 1 else None
+        else:
+            pat = _compiled_pattern(prog, at, call.func.value)
+            subj = call.args[0] if call.args else None
         try:
             got = _regex_charset(pat) if isinstance(pat, str) else None
         except ValueError as e:
@@ -229,15 +291,20 @@ def run(ctx):
             else:
                 ctx.violation("R4.2", "paragraph-split-set", "paragraph-level separators are %s, not {LF, VT}" % sorted("U+%04X" % x for x in got),
                               file=at.file, line=lp.lineno)
-        if dotted(call.args[1]) != at.node.args.args[1].arg:
+        if subj is None or dotted(subj) != at.node.args.args[1].arg:
             ctx.violation("R4.2", "paragraph-split-subject", "split is not applied to the whole argument", file=at.file, line=lp.lineno)
-        iv, sv = [e.id for e in lp.target.elts]
+        if first_form is None:
+            iv, sv = [e.id for e in lp.target.elts]
+        else:
+            iv, sv = None, lp.target.id
         # decision table over (idx > 0, item non-empty): which elements does one iteration add, in which order?
         class Unknown_(Exception):
             pass
 
+        cur = {"sv": sv}
+
         def cond(t, first, empty):
-            if isinstance(t, ast.Compare) and dotted(t.left) == iv and len(t.ops) == 1:
+            if isinstance(t, ast.Compare) and iv is not None and dotted(t.left) == iv and len(t.ops) == 1:
                 k = prog.const(t.comparators[0], at.module)
                 if isinstance(t.ops[0], ast.Gt) and k == 0:
                     return not first
@@ -247,9 +314,9 @@ def run(ctx):
                     return first
                 if isinstance(t.ops[0], ast.NotEq) and k == 0:
                     return not first
-            if isinstance(t, ast.Name) and t.id == iv:
+            if isinstance(t, ast.Name) and iv is not None and t.id == iv:
                 return not first
-            if isinstance(t, ast.Name) and t.id == sv:
+            if isinstance(t, ast.Name) and t.id == cur["sv"]:
                 return not empty
             if isinstance(t, ast.UnaryOp) and isinstance(t.op, ast.Not):
                 return not cond(t.operand, first, empty)
@@ -271,7 +338,7 @@ def run(ctx):
                     d = dotted(st.value.func) or ""
                     if d in ("self.add_br", "self._add_br"):
                         out.append("br")
-                    elif d == "self.add_r" and st.value.args and dotted(st.value.args[0]) == sv:
+                    elif d == "self.add_r" and st.value.args and dotted(st.value.args[0]) == cur["sv"]:
                         out.append("r")
                     else:
                         raise Unknown_("call %s" % d)
@@ -284,7 +351,17 @@ def run(ctx):
             for first in (True, False):
                 for empty in (True, False):
                     out = []
-                    run_body(lp.body, first, empty, out)
+                    if first_form is None:
+                        run_body(lp.body, first, empty, out)
+                    elif first:
+                        # the first item is handled by the statements before the loop, under its own name
+                        cur["sv"] = first_form[0]
+                        try:
+                            run_body(first_form[1], True, empty, out)
+                        finally:
+                            cur["sv"] = sv
+                    else:
+                        run_body(lp.body, False, empty, out)
                     table[(first, empty)] = out
             want_t = {(True, True): [], (True, False): ["r"], (False, True): ["br"], (False, False): ["br", "r"]}
             if table == want_t:
